@@ -59,8 +59,10 @@ import copy  # noqa: E402
 import datetime  # noqa: E402
 import gc  # noqa: E402
 import gzip  # noqa: E402
+import importlib  # noqa: E402
 import json  # noqa: E402
 import pickle  # noqa: E402
+import re  # noqa: E402
 import traceback  # noqa: E402
 import warnings  # noqa: E402
 
@@ -469,7 +471,22 @@ class Builder:
         path = os.path.join(ROOT, CORPUS_DIRS[pkg], name + ".repr")
         with open(path) as f:
             text = f.read()
+        _import_named_contrib_modules(text)
         return _sut("corpus-eval", eval, text, dict(EVAL_GLOBALS), {})
+
+
+_CONTRIB_NAME = re.compile(r"\bcirq\.contrib\.([A-Za-z_][A-Za-z0-9_]*)")
+
+
+def _import_named_contrib_modules(text: str) -> None:
+    """Stored reprs of cirq.contrib name sub-packages (`cirq.contrib.noise_models.X(...)`).  The repository's
+    own test evaluates them after importing cirq.contrib.json_test_data.spec, which imports those
+    sub-packages; a user would import them too.  Done by name, so no resolver cache is warmed up here."""
+    for name in sorted(set(_CONTRIB_NAME.findall(text))):
+        try:
+            importlib.import_module("cirq.contrib." + name)
+        except ImportError:
+            pass
 
 
 def build_value(recipe):
@@ -943,12 +960,14 @@ def op_sort_qids(req):
     qs = [build_value(r) for r in req["recipes"]]
     n = len(qs)
     bad = []
+    bad_types = []
 
     def cmp(op, f, a, b):
         try:
             return bool(f(a, b))
         except Exception as e:  # noqa: BLE001
             bad.append(f"{op} raised {type(e).__name__} for {_tname(a)} vs {_tname(b)}")
+            bad_types.append(sorted((_tname(a), _tname(b))))
             return None
 
     for i in range(n):
@@ -964,6 +983,7 @@ def op_sort_qids(req):
             rl = cmp("<", lambda x, y: x < y, b, a)
             if None in (lt, gt, le, ge, eq, rl):
                 continue
+            n_before = len(bad)
             if lt + eq + rl != 1:
                 bad.append(f"not total/consistent with ==: {i} vs {j} ({_tname(a)}, {_tname(b)}): "
                            f"a<b={lt} a==b={eq} b<a={rl}")
@@ -973,6 +993,8 @@ def op_sort_qids(req):
                 bad.append(f"<=/>= inconsistent with </==: {i} vs {j} ({_tname(a)}, {_tname(b)})")
             if eq and hash(a) != hash(b):
                 bad.append(f"equal qids hash differently: {i} vs {j} ({_tname(a)}, {_tname(b)})")
+            if len(bad) > n_before:
+                bad_types.append(sorted((_tname(a), _tname(b))))
     perm = None
     try:
         perm = sorted(range(n), key=lambda i: qs[i])
@@ -986,7 +1008,7 @@ def op_sort_qids(req):
                         bad.append(f"sorted() output is not ordered: positions {x},{y}")
                 except Exception:  # noqa: BLE001
                     pass
-    return {"perm": perm, "bad": bad[:6], "types": [_tname(q) for q in qs]}
+    return {"perm": perm, "bad": bad[:6], "bad_types": bad_types[:1], "types": [_tname(q) for q in qs]}
 
 
 def op_corpus_read(req):
@@ -999,6 +1021,7 @@ def op_corpus_read(req):
     with open(rpath) as f:
         rtext = f.read()
     jobj = _sut("corpus:read_json", lambda: cirq.read_json(json_text=jtext))
+    _import_named_contrib_modules(rtext)
     robj = _sut("corpus:eval-repr", eval, rtext, dict(EVAL_GLOBALS), {})
     out = {"eq": _sut("corpus:eq", _eq, jobj, robj), "outward": None, "type": _tname(jobj)}
     if not inward:
@@ -1050,4 +1073,8 @@ def serve():
 
 
 if __name__ == "__main__":
+    # everything imported so far lives for the life of the process: take it out of the collector's sight,
+    # so that the gc.collect() of every `reset` only has to look at what runs created
+    gc.collect()
+    gc.freeze()
     serve()
